@@ -228,6 +228,27 @@ def run(R, ctx):
             if v.isdigit():
                 summ[k] = summ.get(k, 0) + int(v)
     nev, nqa = summ.get("events", 0), summ.get("stageA", 0)
+    # negative control: in 24 schedules the term field of one event's projection is damaged; the lock-step driver must object to each
+    ctl, damaged = [], 0
+    for start, sched in split_schedules(lines)[:40]:
+        es = [i for i, l in enumerate(sched) if l.startswith("E ")]
+        if not sched or not sched[0].startswith("R ") or len(es) < 6 or damaged >= 24:
+            continue
+        sched = list(sched)
+        f = sched[es[len(es) // 2]].split(" ")
+        f[4] = str(int(f[4]) + 7) if f[4].isdigit() else "7"
+        sched[es[len(es) // 2]] = " ".join(f)
+        ctl += sched
+        damaged += 1
+    if damaged:
+        dc = run_raft_driver(ctl)
+        hit = len(set(m.split()[1] for m in dc["mismatches"] + dc["unknown"] if len(m.split()) > 1))
+        R.oblige("negative control raftsim: the lock-step driver objects to damaged projections (%d schedules damaged, %d objections)" % (damaged, hit),
+                 "control", hit >= damaged, "%d of %d" % (hit, damaged))
+        R.extra.setdefault("negative_control", {})["raftsim"] = dict(damaged=damaged, reported=hit)
+        if hit < damaged:
+            R.violation("negative-control-raftsim", dict(kind="tie-broken", summary="the Raft lock-step driver accepted damaged projections (%d of %d "
+                                                                                   "reported): it is not judging" % (hit, damaged), trace=ctl[:60]), found_input=False)
     evs = [l for l in lines if l.startswith("E ")]
     pick = [l for l in evs if ";selfAck" in l][:1] + [l for l in evs if " recv:snap" in l][:1] + [l for l in evs if " restart " in l][:1] + \
         [l for l in evs if "recv:app" in l and "/" in l][:1] + [l for l in evs if " hup " in l][:1] + [l for l in lines if l.startswith("Q ")][:1]
